@@ -2,7 +2,7 @@
 From Coq Require Import String List Bool.
 From Gokrb5.lib Require Import Bytes JV.
 From Gokrb5.model Require Import LockModel ClientSM Hosts.
-From Gokrb5.proofs Require Import LockProofs ClientSMProofs HostsProofs.
+From Gokrb5.proofs Require Import LockProofs LockOrderProofs ClientSMProofs HostsProofs.
 
 (* Soundness of the lockset checker that is run on the access model generated from /repo's source on every run
    (coq/gen/Access.v, coq/conform/ConfAccess.v): under the mutual-exclusion semantics of sync.RWMutex two
@@ -35,3 +35,17 @@ Theorem C11_rand_serv_order_perm : forall (servers : list bytes) (oracle : list 
                map snd (numbered 1 vals) = vals.
 Proof. exact rand_serv_order_perm. Qed.
 Print Assumptions C11_rand_serv_order_perm.
+
+(* Deadlock freedom from the lock ranking that the generated obligation conform/ConfLockOrder.v establishes for
+   every acquisition site of client, config and service (direct or through calls): when every thread waits only
+   for a lock ranked strictly above all it holds, no set of threads can wait for each other — whatever the
+   schedule, the number of threads and the locks' modes. *)
+Theorem C11_ordered_no_deadlock : forall (lock : Type) (rank : lock -> nat) (S : list (thread lock)),
+  Forall (ordered lock rank) S -> ~ deadlocked lock S.
+Proof. exact ordered_no_deadlock. Qed.
+Print Assumptions C11_ordered_no_deadlock.
+
+Theorem C11_ordered_no_reentry : forall (lock : Type) (rank : lock -> nat) (t : thread lock) w,
+  ordered lock rank t -> waiting lock t = Some w -> ~ In w (held lock t).
+Proof. exact ordered_no_reentry. Qed.
+Print Assumptions C11_ordered_no_reentry.
